@@ -47,6 +47,21 @@ theorem default_state_is_empty :
     BlockState.default.cachedResponse = none ∧ BlockState.default.cachedPayload = none ∧
     BlockState.default.lastBlock2 = none := ⟨rfl, rfl, rfl⟩
 
+/-- … so once the state has expired (the effective state is the default one), a follow-up block request –
+no Block1 option, small enough to pass the Block1 stage – is passed to the application like a fresh
+request (`ok false`), with no reply filled in by the handler -/
+theorem expired_follow_up_reaches_the_application (M : Nat) (req : Request) (size : Nat)
+    (hb1 : firstBlock req.message block1Num = none)
+    (hsz : computeMessageSize req.message = .ok size)
+    (hn : negotiate none size req.message.payload.length M = .ok none) :
+    coreRequest M req BlockState.default =
+      (req, { BlockState.default with lastBlock2 := firstBlock req.message block2Num }, .ok false) := by
+  have hp := handleBlock1_pass req M BlockState.default size hb1 hsz hn
+  rcases coreRequest_cases M req BlockState.default with ⟨_, hne⟩ | ⟨_, h⟩
+  · rw [hp] at hne; exact absurd rfl hne
+  · rw [h, hp]
+    exact handleBlock2_pass req BlockState.default (Or.inr rfl)
+
 /-- the cache itself: an entry idle for longer than `ttl` is never seen again -/
 theorem expired_entry_invisible {K V : Type} [DecidableEq K] (c : Lru.Cache K V) (k : K) (v : V)
     (t now : Nat) (hf : Lru.find c k = some (v, t)) (hexp : t + c.ttl < now) :
